@@ -76,6 +76,9 @@ impl<'a, T> core::ops::Deref for MutexGuard<'a, T> { type Target = T; fn deref(&
 //@extract KanidmProviderInternal
 //@extract KanidmProvider
 impl UserToken { #[verifier::external_body] pub fn clone(&self) -> (r: UserToken) ensures r == *self { unimplemented!() } }
+// C45 ("the user's current account record"): the record written back after an offline authentication is the latest one known —
+// the one in the cache if there is one, else the one the session started with; an older copy must not overwrite a refreshed record
+pub open spec fn latest_record(current: Option<&UserToken>, session: &UserToken) -> UserToken { match current { Some(t) => *t, None => *session } }
 // kanidm_client: the server's verdict on a POSIX password — Ok(Some(token)) means the server verified it (ASSUMED)
 pub struct UnixUserToken { pub o: u8 }
 #[derive(PartialEq, Eq)]
